@@ -51,6 +51,15 @@ def decodeCall (c : Bytes) : Option Call :=
       let sums ← decodePairs pairs
       pure (.insert (entryNew name [] sums size))
     | _ => none
+  | 2 :: payload =>
+    -- Entry::new with a FILEPATH (where the file was hashed from): it is carried along, the
+    -- entry is classified and keyed by its distinfo NAME
+    match splitNul payload with
+    | name :: fp :: sz :: pairs => do
+      let size ← if sz == [45] then some none else (parseU64? (sz.map fun x => Char.ofNat x.toNat)).map some
+      let sums ← decodePairs pairs
+      pure (.insert (entryNew name fp sums size))
+    | _ => none
   | _ => none
 
 def applyCalls (calls : List Call) : Distinfo × String :=
